@@ -6,11 +6,13 @@ import (
 	"encoding/binary"
 	"errors"
 	"fmt"
+	"net/http"
 	"os"
 	"sync"
 	"time"
 
 	ct "github.com/google/certificate-transparency-go"
+	"github.com/google/certificate-transparency-go/client"
 
 	"verif/internal/harness"
 	"verif/internal/vt"
@@ -134,6 +136,15 @@ func serve(ctx context.Context, tr *trace, c *Call, b Beh, sub, log int) (*ct.Si
 		}
 		tr.end(c, "err")
 		return nil, fmt.Errorf("log %d: %w", log, errScripted)
+	case behGarbled:
+		// the HTTP exchange succeeded (200) but the body cannot be parsed: the error value jsonclient
+		// produces for a truncated / garbled answer. The log yields no SCT for this submission.
+		if !vt.Sleep(ctx, ms(b.DelayMs)) {
+			tr.end(c, "ctx")
+			return nil, ctx.Err()
+		}
+		tr.end(c, "err")
+		return nil, client.RspError{StatusCode: http.StatusOK, Err: errors.New("unexpected end of JSON input"), Body: []byte(`{"sct_version":0,"id":"`)}
 	default:
 		if !vt.Sleep(ctx, ms(b.DelayMs)) {
 			tr.end(c, "ctx")
